@@ -37,6 +37,13 @@ CLAIMED = {
         "v0.1 windows are slices; stream = bytes for every version. Partial: the v0.0 decoder is modelled and compared with the implementation on reference-encoded files, but no reference-decode theorem is proved for it.",
    technique="Lean 4 proof (v0.1 codec, version dispatch) + differential correspondence on reference-encoded v0.0/v0.1 files",
    design="§5 C04"),
+ "C05": dict(
+   text="Theorems (Props/C05.lean): parser.ts is transcribed into Lean (Model/JS.lean: header grammar, saveOffset, info fields, the two flat Float32Arrays, the lazy frame index arithmetic); for every file the Python model "
+        "accepts as v0.2 (and v0.1 whose 16-bit field holds the frame count) the JavaScript model returns the same header, header length, fps, frame and people counts and the same flat arrays (js_agrees_v02 / js_agrees_v01), "
+        "and the JavaScript flat index is Python's row-major index (js_index). The REAL parser.ts of the working tree is type-stripped and run under Node 22 on every generated file and compared with Pose.read and with the model. "
+        "Partial: the version switch (binary64 Math.round) is a hypothesis of the theorems, v0.0 bodies are compared on the implementation only, binary-parser is a stand-in.",
+   technique="Lean 4 proof (extensional equality of two decoders over the same bytes) + three-way differential run: real parser.ts under Node vs Pose.read vs Lean model",
+   design="§5 C05"),
  "C06": dict(
    text="Theorems (Props/C06.lean) over an explicit object store (header memo with its own object, objects handed to callers, calls read / in-place mutate through any held reference / copy / clear): "
         "after ANY history a read hands out a fresh object holding exactly the decode of its own bytes, or raises exactly when they do not decode (read_pure, by the invariant 'the memo's object is private and holds the decode of its key' "
